@@ -42,7 +42,7 @@ def send_clauses(single):
         ("C16.send.raw", "implies(isinstance(event, RawData), len(net_written()) == 1 and net_written()[0] == event.data)", "C16,C02"),
         ("C16.send.only-raw-writes", "implies(not isinstance(event, RawData), len(net_written()) == 0)", "C16"),
         # C07.release: a failed write tells the protocol that the connection is gone
-        ("C07.send.write-failure-closes", "implies(isinstance(event, RawData) and any(o.startswith('error:') for o in net_ops()), " + HANDLE_CLOSED + ")", "C07,C16"),
+        ("C07.send.write-failure-closes", "implies(isinstance(event, RawData) and any(o.startswith('error:') for o in net_ops()), " + HANDLE_CLOSED + ")", "C07,C16,C03"),
         # C07.arm: the protocol's idle reports arm / disarm the keep-alive timer
         ("C07.arm.idle", "implies(isinstance(event, Updated) and event.idle, call_index('" + single + ".restart') >= 0 and call_index('" + single + ".stop') < 0)", "C07,C16"),
         ("C07.arm.busy", "implies(isinstance(event, Updated) and not event.idle, call_index('" + single + ".stop') >= 0 and call_index('" + single + ".restart') < 0)", "C07,C16"),
